@@ -239,7 +239,7 @@ func genTemplateProgram(t *rapid.T, allowErr bool) *tplProg {
 	}
 	w := func(format string, args ...interface{}) { fmt.Fprintf(&tp.src, format, args...) }
 	for b := 1; b <= n; b++ {
-		kind := []string{"strconst", "strconst", "closure", "closure", "module", "module", "stdlib", "mutinput", "mutinput", "literals", "hostmod", "loop"}[rapid.IntRange(0, 11).Draw(t, "block")]
+		kind := []string{"strconst", "strconst", "closure", "closure", "module", "module", "stdlib", "mutinput", "mutinput", "literals", "hostmod", "loop", "mutimm", "mutimm"}[rapid.IntRange(0, 13).Draw(t, "block")]
 		if singleFile && kind == "module" {
 			kind = "closure"
 		}
@@ -282,6 +282,11 @@ func genTemplateProgram(t *rapid.T, allowErr bool) *tplProg {
 			}
 		case "mutinput":
 			w("in2[0] = in2[0] + in0\nin2 = append(in2, len(in2))\nin3.a += 1\nin3.b = append(in3.b, in0)\nin3.c = {d: in1, e: [len(in3.b)]}\nm%d := [len(in2), in3.a, len(in3.b)]\n", b)
+		case "mutimm":
+			// in4 / in5 are immutable containers with mutable parts inside:
+			// immutability is shallow, the script may write into the nested
+			// map / array, and every clone must see only its own copy
+			w("in4.lim.n += in0 + %[2]d\nin4.tags[0] = in1\nin4.tags = in4.tags\nin5[1][0] += 1\nin5[1] = in5[1]\nmi%[1]d := [in4.lim.n, in4.tags, in5[1], is_immutable_map(in4), is_immutable_array(in5)]\n", b, rapid.IntRange(0, 3).Draw(t, "tplImmInc"))
 		case "literals":
 			w("l%[1]d := {a: [1, 2, {b: in0}], s: \"k\", f: 1.5, u: undefined}\nl%[1]d.a[2].b += %[2]d\nl%[1]d.a = append(l%[1]d.a, in1)\nv%[1]d := [in0, [in1], {}, 'c', true, immutable([in0])]\n", b, rapid.IntRange(1, 9).Draw(t, "tplInc"))
 		case "hostmod":
@@ -334,6 +339,12 @@ func tplInputs(t *rapid.T, ill bool) map[string]*lang.Val {
 	}
 	out["in3"] = &lang.Val{T: "map", Share: 3, Keys: []string{"a", "b"},
 		Kids: []*lang.Val{vInt(int64(rapid.IntRange(0, 9).Draw(t, "in3a"))), b}}
+	// immutable containers with nested mutable parts
+	out["in4"] = &lang.Val{T: "imm-map", Share: 4, Keys: []string{"lim", "tags"}, Kids: []*lang.Val{
+		{T: "map", Share: 5, Keys: []string{"n"}, Kids: []*lang.Val{vInt(int64(rapid.IntRange(0, 5).Draw(t, "in4n")))}},
+		{T: "array", Share: 6, Kids: []*lang.Val{vStr("t0"), vStr("t1")}}}}
+	out["in5"] = &lang.Val{T: "imm-array", Share: 7, Kids: []*lang.Val{vInt(1),
+		{T: "array", Share: 8, Kids: []*lang.Val{vInt(int64(rapid.IntRange(0, 5).Draw(t, "in5n")))}}}}
 	if !ill {
 		return out
 	}
